@@ -30,7 +30,7 @@ StrVals == {VStr(<<>>), VStr(<<A, B>>), VStr(<<A, B, C>>)}
 LenNs == {VInt(0), VInt(2), VInt(3)}
 StrLenCalls ==
   {Call("len", <<n>>) : n \in LenNs \cup {VInt(-1), VBool(TRUE), VStr(<<A>>), VFloat(200)}}
-  \cup {Call("len", <<n, VEllipsis>>) : n \in LenNs \cup {VNone}}
+  \cup {Call("len", <<n, VEllipsis>>) : n \in LenNs \cup {VNone, VInt(33)}}
   \cup {Call("len", <<VEllipsis, n>>) : n \in {VInt(2), VInt(3), VStr(<<A>>)}}
   \cup {Call("len", <<VEllipsis>>), Call("len", <<VEllipsis, VEllipsis>>)}
   \cup {Call("len", <<VInt(0), VInt(2)>>), Call("len", <<VInt(2), VInt(3)>>),
